@@ -70,6 +70,35 @@ def h_transfer(eng):
     eng.call_contracts["load_model"] = load_model
     eng.call_contracts["_compile_model"] = compile_model
     eng.call_contracts["save_model"] = save_model
+    # what transfer_model itself does to the folder between the failed load and the new save.  Rely condition ("in-progress"): another
+    # transfer_model of the same model may be running the same code, so a file both calls name alike can disappear or appear between
+    # any two operations of this call; alone, the cache file exists exactly when load_model found one (and rejected it)
+    concurrent = bool(eng.choice(2))
+    eng.input("another_transfer_model_of_this_model_is_running", concurrent)
+    os_mod = eng.ext_modules["os"]
+    state = {"exists": outcome != "FileNotFoundError"}
+
+    def there(label):
+        if concurrent:
+            return eng.branch(eng.fresh_bool("exists_now"))
+        return state["exists"]
+
+    def remove(eng, p_):
+        log["order"].append("remove")
+        if not there(p_):
+            raise PyRaise(VObj(EXC["FileNotFoundError"], {"args": ("cache",)}))
+        state["exists"] = False
+
+    def replace(eng, a_, b_):
+        log["order"].append("replace")
+        if not there(a_):
+            raise PyRaise(VObj(EXC["FileNotFoundError"], {"args": ("cache",)}))
+    for nm in ("remove", "unlink"):
+        os_mod.attrs[nm] = stub(remove)
+    for nm in ("replace", "rename"):
+        os_mod.attrs[nm] = stub(replace)
+    os_mod.attrs["path"].attrs["exists"] = stub(lambda eng, p_: there(p_))
+    os_mod.attrs["path"].attrs["isfile"] = stub(lambda eng, p_: there(p_))
     f = eng.find_function(MOD, "transfer_model")
     try:
         r = eng.call(f, [A.PathStr("MODEL"), "M", opts], {})
